@@ -103,20 +103,24 @@ def _successor_region(fm: FuncModel, e: ast.AST, at, sd_p: str, node_p: str, dep
             a = d.ast
             if d.kind == "for" and isinstance(a.target, ast.Name) and a.target.id == e.id:
                 # element of a list of successor regions: [mk_subspace(space of s) for s in node_successors(node)]
-                it_ = fm.deref(a.iter, d)
-                okc = isinstance(it_, ast.ListComp) and len(it_.generators) == 1 and not it_.generators[0].ifs \
-                    and isinstance(it_.generators[0].target, ast.Name)
-                if okc:
-                    g0 = it_.generators[0]
-                    src = g0.iter
-                    okc = isinstance(src, ast.Call) and callee_name(src) == "node_successors" and bool(src.args) and text(src.args[0]) == node_p
-                    el = it_.elt
-                    okc = okc and isinstance(el, ast.Call) and callee_name(el) == "mk_subspace" and bool(el.args)
-                    if okc:
-                        sp_ = el.args[0]
-                        h = fm.raw_handle(sp_.value) if isinstance(sp_, ast.Subscript) and isinstance(sp_.slice, ast.Constant) \
-                            and sp_.slice.value == "space" else None
-                        okc = h is not None and text(h[1]) == g0.target.id
+                okc = True
+                for it_ in c08._alternatives(fm, a.iter, d):       # every list the loop may range over
+                    if is_empty_list(it_):
+                        continue
+                    ok1 = isinstance(it_, ast.ListComp) and len(it_.generators) == 1 and not it_.generators[0].ifs \
+                        and isinstance(it_.generators[0].target, ast.Name)
+                    if ok1:
+                        g0 = it_.generators[0]
+                        src = g0.iter
+                        ok1 = isinstance(src, ast.Call) and callee_name(src) == "node_successors" and bool(src.args) and text(src.args[0]) == node_p
+                        el = it_.elt
+                        ok1 = ok1 and isinstance(el, ast.Call) and callee_name(el) == "mk_subspace" and bool(el.args)
+                        if ok1:
+                            sp_ = el.args[0]
+                            h = fm.raw_handle(sp_.value) if isinstance(sp_, ast.Subscript) and isinstance(sp_.slice, ast.Constant) \
+                                and sp_.slice.value == "space" else None
+                            ok1 = h is not None and text(h[1]) == g0.target.id
+                    okc = okc and ok1
                 if not okc:
                     return False, f"`{e.id}` does not range over the regions of the successors of `{node_p}`"
                 continue
